@@ -109,6 +109,24 @@ func loadProgram(repo, harnessDir string, cfg *Config) (*Engine, error) {
 	if err != nil {
 		return nil, err
 	}
+	// in-package verif files (unexported access), e.g. inpkg/node_keeper_verif.go -> /repo/x/node/keeper/zz_verif_node_keeper_verif.go
+	inpkg := filepath.Join(filepath.Dir(harnessDir), "inpkg")
+	if ents, err := os.ReadDir(inpkg); err == nil {
+		for _, e := range ents {
+			if !strings.HasSuffix(e.Name(), ".go") {
+				continue
+			}
+			parts := strings.SplitN(e.Name(), "_", 3) // <module>_<pkgdir>_...
+			if len(parts) < 3 {
+				continue
+			}
+			b, err := os.ReadFile(filepath.Join(inpkg, e.Name()))
+			if err != nil {
+				return nil, err
+			}
+			overlay[filepath.Join(repo, "x", parts[0], parts[1], "zz_verif_"+e.Name())] = b
+		}
+	}
 	pc := &packages.Config{
 		Mode:       packages.LoadAllSyntax,
 		Dir:        repo,
